@@ -854,8 +854,10 @@ def main():
     os.makedirs(os.path.dirname(OUT), exist_ok=True)
     old = open(OUT).read() if os.path.exists(OUT) else None
     if old != txt:
-        with open(OUT, "w") as f:
+        _tmp = OUT + ".tmp%d" % os.getpid()
+        with open(_tmp, "w") as f:
             f.write(txt)
+        os.replace(_tmp, OUT)  # atomic: a concurrent coqc never sees a partial file
     return {"classes": EXPECTED_CLASSES, "definitions": sum(1 for x in tr.out if x.startswith("Definition")),
             "locals": len(tr.locals_emitted), "sha256": sha}
 
